@@ -586,7 +586,8 @@ def _run(tier, seed):
     return rep.result(
         assumptions=[
             "C17: ast.findFeatureTags / ast.findCommentPattern enter the proofs as call-site summaries (generators are outside the pyvc subset); validated by bounded conformance only",
-            "C17: BaseFeatureWriter._insert is checked by exhaustive enumeration of a finite domain of block shapes (bounded), not deductively",
+            "C17: BaseFeatureWriter._insert is under deductive contract for calls with ONE generated feature (contracts/c17_insert.py); calls with two or more generated features "
+            "(dependent features, interplay of two markers) are checked by exhaustive enumeration of a finite domain of block shapes (bounded) only",
         ],
         explanation="",
     )
@@ -618,6 +619,38 @@ def f8_probe():
     return out
 
 
+def f9_probe():
+    """finding F-C17-2 (latent: no built-in writer calls `_insert` this way): three generated features, the first and the third with an insert
+    marker, the second without.  The walk-back that inserts the dependent second feature shifts ALL recorded indices (also those before the
+    insertion point), so min(indices) is one too large and the lookups land AFTER the first generated feature that may reference them."""
+    from fontTools.feaLib import ast as fa
+
+    case = {"top": [["abvm", ["M"]], ["S"], ["mkmk", ["M"]]], "features": ["abvm", "mark", "mkmk"], "lookups": 2, "classdefs": 0}
+    from ufo2ft.featureWriters.baseFeatureWriter import BaseFeatureWriter
+
+    class _W(BaseFeatureWriter):
+        tableTag = "GPOS"
+        features = frozenset(["abvm", "mark", "mkmk"])
+
+    counter = [0]
+    fea = fa.FeatureFile()
+    for el in case["top"]:
+        fea.statements.append(fa.LookupBlock("user") if el[0] == "S" else _mk_block(fa, el[0], el[1], counter))
+    w = _W()
+    w.setContext(None, fea)
+    lookups = [fa.LookupBlock("gen0"), fa.LookupBlock("gen1")]
+    feats = [fa.FeatureBlock(t) for t in case["features"]]
+    for f in feats:
+        f.statements.append(fa.LookupReferenceStatement(lookups[0]))
+    w._insert(feaFile=fea, lookups=lookups, features=feats)
+    order = [(type(s).__name__, getattr(s, "name", "")) for s in fea.statements if not isinstance(s, fa.Comment)]
+    print("top-level order after _insert:", order)
+    first_feature = min(i for i, s in enumerate(fea.statements) if any(s is f for f in feats))
+    first_lookup = min(i for i, s in enumerate(fea.statements) if any(s is l for l in lookups))
+    print("first generated feature at", first_feature, "- first generated lookup at", first_lookup, "->", "lookups AFTER the feature that references them" if first_lookup > first_feature else "ok")
+    return first_lookup > first_feature
+
+
 def replay(path):
     with open(path) as f:
         pl = json.load(f)
@@ -639,3 +672,5 @@ if __name__ == "__main__":
         sys.exit(replay(sys.argv[2]))
     if len(sys.argv) >= 2 and sys.argv[1] == "f8":
         f8_probe()
+    if len(sys.argv) >= 2 and sys.argv[1] == "f9":
+        f9_probe()
